@@ -23,6 +23,8 @@ package main
 
 import (
 	"fmt"
+	"math/big"
+	"math/bits"
 	"net"
 	"net/http"
 	"net/http/httptest"
@@ -105,6 +107,8 @@ func init() {
 			return tCtxGet(rest)
 		case "vtype":
 			return tVType(rest)
+		case "wide":
+			return tWide(rest)
 		}
 		return "err unknown request"
 	})
@@ -203,37 +207,41 @@ func tDeclare(c *lctx.Context) {
 	}
 }
 
-// direct call of the linter context (no program): "<type-or-NULL> <ok|err>"
+// direct call of the linter context (no program): "<A|R> <type>"
 func tCtxGet(rest string) string {
 	f := strings.Fields(rest)
 	if len(f) != 3 {
 		return "err bad request"
 	}
 	mask, _ := strconv.Atoi(f[2])
+	c := lctx.New()
+	tDeclare(c)
+	return tCtxOp(c, f[0], f[1], mask)
+}
+
+func tCtxOp(c *lctx.Context, name, op string, mask int) string {
 	mode := 0
 	for i, b := range tLintScopes {
 		if mask&(1<<i) != 0 {
 			mode |= b
 		}
 	}
-	c := lctx.New()
-	tDeclare(c)
 	c.Scope(mode)
-	switch f[1] {
+	switch op {
 	case "get":
-		t, err := c.Get(f[0])
+		t, err := c.Get(name)
 		if err != nil && err != lctx.ErrDeprecated && err != lctx.ErrUncapturedRegexVariable && err != lctx.ErrRegexVariableOverridden {
 			return "R " + t.String()
 		}
 		return "A " + t.String()
 	case "set":
-		t, err := c.Set(f[0])
+		t, err := c.Set(name)
 		if err != nil {
 			return "R " + t.String()
 		}
 		return "A " + t.String()
 	case "unset":
-		if err := c.Unset(f[0]); err != nil {
+		if err := c.Unset(name); err != nil {
 			return "R NEVER"
 		}
 		return "A NEVER"
@@ -552,7 +560,9 @@ func tOpBody(op, lty, rty, form string) (decls, body string, err error) {
 	return ld + rd + "declare local var.verif_b BOOL;\n", "set var.verif_b = (" + le + " " + op + " " + re + ");\n", nil
 }
 
-func tCell(spec string) (res tResult) {
+func tCell(spec string) tResult { return tCellOpt(spec, true) }
+
+func tCellOpt(spec string, execute bool) (res tResult) {
 	f := strings.Split(spec, ",")
 	var decls, body string
 	var err error
@@ -582,6 +592,9 @@ func tCell(spec string) (res tResult) {
 	src := tProgram(decls, body, mask)
 	res.src = strings.ReplaceAll(src[len(tPreamble):], "\n", " ")
 	res.lint, res.lintMsg = tLint(src)
+	if !execute {
+		return res
+	}
 	res.interp, res.interpMsg, res.runs = tRun(src, tMaskScopes(mask), f[0] == "S" && strings.HasPrefix(f[1], "return:"))
 	return res
 }
@@ -709,6 +722,50 @@ func tRunOne(src string, scope int, machine bool) (class, msg string) {
 		return tClassify(m), m
 	}
 	return "ok", ""
+}
+
+func tWideMasks(set string) []int {
+	var out []int
+	for m := 1; m < 512; m++ {
+		if set == "all" || bits.OnesCount(uint(m)) == 3 || m == 511 {
+			out = append(out, m)
+		}
+	}
+	return out
+}
+
+func tWide(rest string) string {
+	f := strings.Fields(rest)
+	if len(f) != 2 {
+		return "err bad request"
+	}
+	acc := new(big.Int)
+	var c *lctx.Context
+	if strings.HasPrefix(f[0], "V,") {
+		// one context for the row (as within one linted file); Get/Set only cache resolved objects
+		c = lctx.New()
+		tDeclare(c)
+	}
+	for _, m := range tWideMasks(f[1]) {
+		var ok bool
+		if c != nil {
+			p := strings.Split(f[0], ",")
+			if len(p) != 3 {
+				return "err bad spec"
+			}
+			ok = strings.HasPrefix(tCtxOp(c, p[1], p[2], m), "A")
+		} else {
+			r := tCellOpt(fmt.Sprintf("%s,%d", f[0], m), false)
+			if r.lint != "A" && r.lint != "R" {
+				return "err " + r.lintMsg
+			}
+			ok = r.lint == "A"
+		}
+		if ok {
+			acc.SetBit(acc, m, 1)
+		}
+	}
+	return "bits " + acc.String()
 }
 
 // type of the value of a predefined variable in each scope: ProcessExpression(&ast.Ident{...}) after SetScope
